@@ -4,6 +4,7 @@ Statements are about the exact-arithmetic instance (`ratTime`) of the same gener
 diffed bit-for-bit (as `floatTime`) against `runtime.py` and `ManagedFilter.h`.
 -/
 import FormakVerif.Proofs.Runtime
+import FormakVerif.Properties.C11
 
 namespace FormakVerif.C10
 open FormakVerif
@@ -94,6 +95,103 @@ theorem segment_ok (h : 0 < maxDt) :
     (∀ s ∈ plan ratTime maxDt cur out, |s| ≤ maxDt ∧ (cur < out → 0 < s) ∧ (out < cur → s < 0)) ∧
     |(plan ratTime maxDt cur out).sum - (out - cur)| < 1 / 1000000000 :=
   ⟨fun s hs => ⟨bounded maxDt cur out h s hs, direction maxDt cur out h s hs⟩, sum_close maxDt cur out h⟩
+
+/-! ### lifted over any sequence of ticks
+
+The property quantifies "over any sequence of ticks". `C11.runHistory` runs a whole history of ticks
+(each with any output time and any readings, timestamps in any order) through the *recording*
+filter `traceFilter`, whose state is the list of filter calls issued so far. Every prediction call
+in that list - whichever tick, whichever segment (held time → reading, reading → reading,
+held time → output) it belongs to - is no longer than the configured maximum and is never a
+zero-length step. -/
+
+/-- a step is acceptable: bounded by the configured maximum, and a real move -/
+def StepOk (maxDt : ℚ) : Call ℚ → Prop
+  | .proc dt _ => |dt| ≤ maxDt ∧ dt ≠ 0
+  | .sens _ => True
+
+def TraceOk (maxDt : ℚ) (s : List (Call ℚ)) : Prop := ∀ c ∈ s, StepOk maxDt c
+
+/-- every planned step is bounded and non-zero -/
+theorem plan_ok (h : 0 < maxDt) : ∀ s ∈ plan ratTime maxDt cur out, |s| ≤ maxDt ∧ s ≠ 0 := by
+  intro s hs
+  refine ⟨bounded maxDt cur out h s hs, ?_⟩
+  have hd := direction maxDt cur out h s hs
+  rcases lt_trichotomy cur out with hlt | heq | hgt
+  · exact (hd.1 hlt).ne'
+  · subst heq; rw [equal_no_step maxDt cur h] at hs; cases hs
+  · exact (hd.2 hgt).ne
+
+theorem foldl_process_ok (ctl : Nat) (l : List ℚ) (s : List (Call ℚ)) (hs : TraceOk maxDt s)
+    (hl : ∀ d ∈ l, |d| ≤ maxDt ∧ d ≠ 0) :
+    TraceOk maxDt (l.foldl (fun s dt => (traceFilter ℚ ctl).process dt s) s) := by
+  induction l generalizing s with
+  | nil => simpa using hs
+  | cons d l ih =>
+    simp only [List.foldl_cons]
+    apply ih
+    · intro c hc
+      simp only [traceFilter, List.mem_append, List.mem_singleton] at hc
+      rcases hc with hc | hc
+      · exact hs c hc
+      · subst hc; exact hl d (by simp)
+    · intro d' hd'; exact hl d' (by simp [hd'])
+
+theorem advance_ok (h : 0 < maxDt) (ctl : Nat) (hd : Held ℚ (List (Call ℚ))) (hok : TraceOk maxDt hd.est) :
+    TraceOk maxDt (advance ratTime (traceFilter ℚ ctl) maxDt hd out) := by
+  unfold advance
+  exact foldl_process_ok maxDt ctl _ _ hok (plan_ok maxDt hd.time out h)
+
+theorem sensor_ok (ctl : Nat) (id : Nat) (s : List (Call ℚ)) (hs : TraceOk maxDt s) :
+    TraceOk maxDt ((traceFilter ℚ ctl).sensor id s) := by
+  simp only [traceFilter]
+  split
+  · intro c hc
+    simp only [List.mem_append, List.mem_singleton] at hc
+    rcases hc with hc | hc
+    · exact hs c hc
+    · subst hc; trivial
+  · exact hs
+
+theorem foldReadings_ok (h : 0 < maxDt) (ctl : Nat) (rs : List (ℚ × Nat)) (hd : Held ℚ (List (Call ℚ)))
+    (hok : TraceOk maxDt hd.est) :
+    TraceOk maxDt (foldReadings ratTime (traceFilter ℚ ctl) maxDt hd rs).est := by
+  unfold foldReadings
+  induction rs generalizing hd with
+  | nil => simpa using hok
+  | cons r rs ih =>
+    simp only [List.foldl_cons]
+    apply ih
+    exact sensor_ok maxDt ctl r.2 _ (advance_ok maxDt r.1 h ctl hd hok)
+
+/-- **Over any sequence of ticks**: every prediction call issued while running any history of
+ticks (any output times, any readings, timestamps in any order relative to each other, to the held
+time and to the output time) from any held time is bounded by the configured maximum and is not
+a zero-length step - both in what ends up held and in every estimate a tick returns. -/
+theorem history_steps_ok (h : 0 < maxDt) (ctl : Nat) (hist : List (ℚ × List (ℚ × Nat)))
+    (hd : Held ℚ (List (Call ℚ))) (hok : TraceOk maxDt hd.est) :
+    TraceOk maxDt (C11.runHistory ratTime (traceFilter ℚ ctl) maxDt hd hist).1.est ∧
+    ∀ e ∈ (C11.runHistory ratTime (traceFilter ℚ ctl) maxDt hd hist).2, TraceOk maxDt e := by
+  induction hist generalizing hd with
+  | nil => exact ⟨by simpa [C11.runHistory] using hok, by simp [C11.runHistory]⟩
+  | cons t rest ih =>
+    obtain ⟨o, rs⟩ := t
+    have hf := foldReadings_ok maxDt h ctl rs hd hok
+    have hrec := ih (foldReadings ratTime (traceFilter ℚ ctl) maxDt hd rs) hf
+    simp only [C11.runHistory, tickSpec]
+    refine ⟨hrec.1, ?_⟩
+    intro e he
+    simp only [List.mem_cons] at he
+    rcases he with he | he
+    · subst he; exact advance_ok maxDt o h ctl _ hf
+    · exact hrec.2 e he
+
+/-- non-vacuity: a two-tick history with out-of-order readings starting from the empty trace
+(which satisfies the hypothesis) returns traces of seven and six calls, some of them backward steps -/
+example : TraceOk (1/10) ([] : List (Call ℚ)) := by intro c hc; cases hc
+example :
+    ((C11.runHistory ratTime (traceFilter ℚ) (1/10) ⟨0, []⟩
+      [(1/4, [(3/20, 7), (1/20, 9)]), (0, [])]).2.map List.length) = [7, 6] := by decide +kernel
 
 /-! non-vacuity: forward non-multiple, backward non-multiple, exact multiple -/
 example : plan ratTime (1/20) 0 (3/25) = [1/20, 1/20, 1/50] := by decide +kernel
